@@ -149,6 +149,11 @@ fn check_legacy(ir: &Ir, ur: i128, rep: &mut Report) {
     }
     rep.bump("legacy_cases");
     rep.bump("cases");
+    if ir.ins_fixed >= 0 && ir.ins_rate >= 0 && ir.grp_fixed >= 0 && ir.grp_rate >= 0 && ir.prog_fixed >= 0 && ir.prog_rate >= 0
+        && ir.ins_fixed + ir.ins_rate + ir.grp_fixed + ir.grp_rate + ir.prog_fixed + ir.prog_rate <= 3 * ONE {
+        let mut r2 = Rng::new(ir.optimal as u64 ^ ir.max_ir as u64);
+        accrual_usable(ir, &mut r2, rep);
+    }
     let cfgs = format!("legacy optimal={} plateau={} max={} ur={}", ir.optimal, ir.plateau, ir.max_ir, ur);
     match base(ir, ur) {
         Ok(Some(b)) => {
@@ -175,6 +180,34 @@ fn check_legacy(ir: &Ir, ur: i128, rep: &mut Report) {
     }
 }
 
+/// "an accepted curve can never by itself make interest accrual fail": for a configuration the real validate() accepts (fees
+/// small and non-negative), an ordinary bank state (share values 1..4, up to 10^12 tokens, utilisation 0..100 %) and ANY time
+/// since the last accrual up to five years — in particular exactly one year, one second less and one second more — the real
+/// calc_interest_rate_accrual_state_changes must produce a result (a growth factor of at most a few hundred on values far below 2^79)
+fn accrual_usable(ir: &Ir, rng: &mut Rng, rep: &mut Report) {
+    use marginfi::state::interest_rate::calc_interest_rate_accrual_state_changes;
+    const YEAR: u64 = 31_536_000;
+    let cfg = ir.config();
+    let g = ir.group();
+    let ta: i128 = (1 + rng.below(1_000_000_000_000) as i128) * ONE;
+    let tl: i128 = match rng.below(4) { 0 => ta, 1 => ta / 2, 2 => 0, _ => (ta / 1000) * rng.below(1001) as i128 };
+    let (asv, lsv) = (ONE + rng.below(3 * ONE as u64) as i128, ONE + rng.below(3 * ONE as u64) as i128);
+    for dt in [1u64, 3600, YEAR - 1, YEAR, YEAR + 1, YEAR + 86_400, 2 * YEAR, 5 * YEAR, 1 + rng.below(5 * YEAR)] {
+        let r = catch_unwind(AssertUnwindSafe(|| {
+            let calc = cfg.create_interest_rate_calculator(&g);
+            calc_interest_rate_accrual_state_changes(dt, I80F48::from_bits(ta), I80F48::from_bits(tl), &calc, I80F48::from_bits(asv), I80F48::from_bits(lsv)).is_some()
+        }));
+        rep.bump("accrual_usable_probes");
+        if !matches!(r, Ok(true)) {
+            rep.fail(format!(
+                "interest accrual {} for an accepted configuration {} s after the last accrual (one year = {} s): deposits {} debt {} share values ({}, {}); every user instruction on such a bank fails from then on: {}",
+                if r.is_err() { "PANICS" } else { "FAILS" }, dt, YEAR, ta, tl, asv, lsv, ir.line()
+            ));
+            break;
+        }
+    }
+}
+
 fn check_seven(ir: &Ir, u1: i128, u2: i128, rep: &mut Report) {
     if ir.config().validate().is_err() {
         rep.bump("seven_rejected");
@@ -182,6 +215,10 @@ fn check_seven(ir: &Ir, u1: i128, u2: i128, rep: &mut Report) {
     }
     rep.bump("seven_cases");
     rep.bump("cases");
+    {
+        let mut r2 = Rng::new((ir.zero as u64) << 32 | ir.hundred as u64);
+        accrual_usable(ir, &mut r2, rep);
+    }
     let desc = format!("seven zero={} hundred={} pts={:?}", ir.zero, ir.hundred, ir.pts);
     let zr = rate_from_u32(ir.zero);
     let hr = rate_from_u32(ir.hundred);
